@@ -355,4 +355,13 @@ def run(ctx: Ctx, tier: str) -> Result:
         res.fail(Finding("C09.F", f_.qname, c_, f_.loc(c_), "`%s` is %s: every later snapshot task (and the poll) blocks behind one failed send" % (norm(c_), why)))
     if not leaks:
         res.ok("C09.F", {"no explicit lock acquisition without a guaranteed release on the send path": len(pipeline)})
+    # what a handler keeps track of is its own: the pending map, the job counter and the open flag are instance state (a map on the
+    # class is one map for every handler in the process - two agents, or a restarted one, overwrite and delete one another's jobs)
+    from .common import process_wide_writes
+    pw = process_wide_writes(ctx, pipeline)
+    for f_, n_, what_ in pw[:3]:
+        res.fail(Finding("C09.E", f_.qname, n_, f_.loc(n_), "`%s` writes the handler's bookkeeping into %s, shared by every handler of the process: jobs of two handlers with the same "
+                         "number overwrite each other, and flush() of one returns while its task is still running" % (norm(n_)[:60], what_)))
+    if not pw:
+        res.ok("C09.E", {"delivery bookkeeping is per handler (no class-level / module-level container written)": len(pipeline)})
     return res
